@@ -133,6 +133,9 @@ func (e *engine) eval(cases []Case) error {
 		if i%97 == 0 {
 			e.rep.Sample(map[string]any{"case": shorten(c), "impl": clip(res.line)})
 		}
+		if strings.HasPrefix(c.Probe, "f5-") {
+			e.probed[f5Key] = e.probed[f5Key] || res.key == f5Key
+		}
 		if res.key != "" {
 			e.rep.Fail(common.OracleFailure{Engine: "handshake", Key: res.key, Case: c, Detail: res.det})
 		}
@@ -236,7 +239,7 @@ func (e *engine) runAll() error {
 		}
 	}
 	// 3. generated cases
-	n := o.Budget(6000, 200000)
+	n := o.Budget(5000, 200000)
 	for i := 0; i < n; i++ {
 		f := r.Fork(uint64(i))
 		var c Case
@@ -294,7 +297,7 @@ func exhaustive(o *common.Options) []Case {
 			res = append(res, cc)
 		}
 	}
-	bits := 11
+	bits := 8
 	if o.Thorough() {
 		bits = 16
 	}
